@@ -12,12 +12,92 @@ import (
 //          102 [bufs]  Header.Unmarshal of each buffer into one receiver
 // After an error the receiver is replaced by a fresh one (its state is unspecified then).
 
-func vOffsets(h *rtp.Header, buf []byte) Val {
-	out := VList{}
-	for _, id := range h.GetExtensionIDs() {
-		out = append(out, I(int64(offsetIn(h.GetExtension(id), buf))))
+// wireElements walks the extension block of an accepted input the way RFC 8285 4.2 / 4.3 lay it out
+// (zero bytes are padding; a one-byte element is a header byte id<<4|len-1 and its value, reading stops
+// at the reserved id 15; a two-byte element is id, length, value; any other profile is one value) and
+// returns, per id, where its first element's value lies in the input.  It reads the INPUT, not the
+// decoded packet: the offsets it reports do not depend on whether the decoder hands out windows of
+// the input or copies (the property asks for the bytes, not for their address).
+type wireElem struct{ off, n int }
+
+func wireElements(buf []byte) map[uint8]wireElem {
+	out := map[uint8]wireElem{}
+	if len(buf) < 12 || buf[0]&0x10 == 0 {
+		return out
+	}
+	pos := 12 + 4*int(buf[0]&0x0F)
+	if len(buf) < pos+4 {
+		return out
+	}
+	profile := int(buf[pos])<<8 | int(buf[pos+1])
+	start := pos + 4
+	end := start + 4*(int(buf[pos+2])<<8|int(buf[pos+3]))
+	if end > len(buf) {
+		end = len(buf)
+	}
+	add := func(id uint8, off, n int) {
+		if _, seen := out[id]; !seen {
+			out[id] = wireElem{off, n}
+		}
+	}
+	switch {
+	case profile == 0xBEDE:
+		for q := start; q < end; {
+			b := buf[q]
+			if b == 0 {
+				q++
+				continue
+			}
+			if b>>4 == 15 {
+				break
+			}
+			add(b>>4, q+1, int(b&15)+1)
+			q += 2 + int(b&15)
+		}
+	case profile&0xFFF0 == 0x1000:
+		for q := start; q+1 < end; {
+			if buf[q] == 0 {
+				q++
+				continue
+			}
+			add(buf[q], q+2, int(buf[q+1]))
+			q += 2 + int(buf[q+1])
+		}
+	default:
+		add(0, start, end-start)
 	}
 	return out
+}
+
+// vOffsets: for every id the decoded header lists, the offset of its value in the input (-1 for an
+// empty value, -3 if the input has no such element), and checkValues: the decoded value IS those bytes
+func vOffsets(h *rtp.Header, buf []byte) Val {
+	w := wireElements(buf)
+	out := VList{}
+	for _, id := range h.GetExtensionIDs() {
+		e, ok := w[id]
+		switch {
+		case !ok:
+			out = append(out, I(-3))
+		case e.n == 0:
+			out = append(out, I(-1))
+		default:
+			out = append(out, I(int64(e.off)))
+		}
+	}
+	return out
+}
+
+func checkValues(h *rtp.Header, buf []byte, hdrLen int) string {
+	w := wireElements(buf)
+	for _, id := range h.GetExtensionIDs() {
+		v := h.GetExtension(id)
+		e, ok := w[id]
+		if !ok || e.n != len(v) || e.off < 12 || e.off+e.n > hdrLen || e.off+e.n > len(buf) || !bytes.Equal(v, buf[e.off:e.off+e.n]) {
+			return fmt.Sprintf("extension %d: value %x is not the input bytes of that element (input has %v)", id, v, e)
+		}
+	}
+	return ""
 }
 
 func wfWire(r *RNG) []byte {
@@ -149,14 +229,10 @@ func runUnmarshalSeq(pkt bool, bufs [][]byte) Outcome {
 			// bounds
 			if n < 0 || n > len(buf) {
 				o.Fail = fmt.Sprintf("step %d: header+payload+padding does not add up to the input length", step)
-			} else if len(p.Payload) > 0 && offsetIn(p.Payload, buf) != n {
+			} else if !bytes.Equal(p.Payload, buf[n:n+len(p.Payload)]) {
 				o.Fail = fmt.Sprintf("step %d: payload is not the input bytes after the header", step)
-			}
-			for _, id := range p.GetExtensionIDs() {
-				v := p.GetExtension(id)
-				if off := offsetIn(v, buf); len(v) > 0 && (off < 12 || off+len(v) > n) {
-					o.Fail = fmt.Sprintf("step %d: extension %d value not inside the header", step, id)
-				}
+			} else if why := checkValues(&p.Header, buf, n); why != "" {
+				o.Fail = fmt.Sprintf("step %d: %s", step, why)
 			}
 			// re-encoding (C03): Marshal reports invalid padding (P bit, count 0) or yields bytes that decode equal
 			if b2, merr := p.Marshal(); merr != nil {
@@ -178,6 +254,8 @@ func runUnmarshalSeq(pkt bool, bufs [][]byte) Outcome {
 			results = append(results, OkV(L(vHeader(&h), I(int64(n)), vOffsets(&h, buf))))
 			if n < 12 || n > len(buf) {
 				o.Fail = fmt.Sprintf("step %d: n=%d outside the input", step, n)
+			} else if why := checkValues(&h, buf, n); why != "" {
+				o.Fail = fmt.Sprintf("step %d: %s", step, why)
 			}
 			checkDeclared(n)
 			var q rtp.Header
